@@ -143,6 +143,23 @@ def cmpOp : LP CmpOp :=
   <|>> (map (fun _ => CmpOp.le) (lit "<=".toList)) <|>> (map (fun _ => CmpOp.ge) (lit ">=".toList))
   <|>> (map (fun _ => CmpOp.lt) (lit "<".toList)) <|>> (map (fun _ => CmpOp.gt) (lit ">".toList))
 
+def dedup {α} (l : List (α × Str)) : List (α × Str) :=
+  l.foldl (fun acc x => if acc.any (fun y => y.2.length == x.2.length) then acc else acc ++ [x]) []
+
+/-- does `r`, after optional blanks, start with one of the given tokens (or is it empty, if `eof`)? -/
+def startsAfterS (toks : List Str) (eof : Bool) (r : Str) : Bool :=
+  let r' := r.dropWhile isB
+  (eof && r'.isEmpty) || toks.any fun t => t.isPrefixOf r'
+/-- results of a repetition `*(S sep S item)`: only a result whose rest starts with a token that may FOLLOW the repetition in
+RFC 9535 can ever be completed (the follow sets below are supersets of the exact ones and never contain the repetition's own
+separator); the others are dropped, and what remains is deduplicated by rest -/
+def prune {α} (follow : List Str) (eof : Bool) (l : List (α × Str)) : List (α × Str) :=
+  dedup (l.filter fun x => startsAfterS follow eof x.2)
+def followSegments : List Str := [[']'], [')'], [','], "&&".toList, "||".toList]
+def followAnd : List Str := [[']'], [')'], [','], "||".toList]
+def followOr : List Str := [[']'], [')'], [',']]
+def followSingular : List Str := ["==".toList, "!=".toList, ['<'], ['>'], [']'], [')'], [','], "&&".toList, "||".toList]
+
 def thenP {α} (p : LP Unit) (q : LP α) : LP α := bind p fun _ => q
 def optS (b : Bool) : LP Unit := if b then S else ret ()
 
@@ -155,7 +172,7 @@ def sqSegs (lenient : Bool) : Nat → LP (List SQSeg)
       (do ch '['; optS lenient; let n ← stringLex; optS lenient; ch ']'; pure (SQSeg.name n))
       <|>> (do ch '.'; let n ← nameShort; pure (SQSeg.name n))
       <|>> (do ch '['; optS lenient; let i ← intLex; optS lenient; ch ']'; pure (SQSeg.index (intVal i)))
-    ((do let x ← one; let xs ← sqSegs lenient fuel; pure (x :: xs)) <|>> ret []) s
+    prune followSingular false (((do let x ← one; let xs ← sqSegs lenient fuel; pure (x :: xs)) <|>> ret []) s)
 
 def classifyFn (nm : Str) (args : List FnArg) : TestFunction :=
   if nm == "length".toList then (match args with | [a] => .length a | _ => .custom ('!' :: nm) args)
@@ -165,13 +182,10 @@ def classifyFn (nm : Str) (args : List FnArg) : TestFunction :=
   else if nm == "search".toList then (match args with | [a, b] => .search a b | _ => .custom ('!' :: nm) args)
   else .custom nm args
 
-def dedup {α} (l : List (α × Str)) : List (α × Str) :=
-  l.foldl (fun acc x => if acc.any (fun y => y.2.length == x.2.length) then acc else acc ++ [x]) []
-
 mutual
 def segmentsP : Nat → LP (List Segment)
   | 0 => ret []
-  | n+1 => fun s => dedup (((do S; let x ← segmentP n; let xs ← segmentsP n; pure (x :: xs)) <|>> ret []) s)
+  | n+1 => fun s => prune followSegments true (((do S; let x ← segmentP n; let xs ← segmentsP n; pure (x :: xs)) <|>> ret []) s)
 def segmentP : Nat → LP Segment
   | 0 => fail
   | n+1 =>
@@ -191,7 +205,7 @@ def bracketed : Nat → LP Segment
     pure (match rest with | [] => Segment.selector s0 | _ => Segment.selectors (s0 :: rest))
 def moreSelectors : Nat → LP (List Selector)
   | 0 => ret []
-  | n+1 => fun s => dedup (((do S; ch ','; S; let x ← selectorP n; let xs ← moreSelectors n; pure (x :: xs)) <|>> ret []) s)
+  | n+1 => fun s => prune [[']']] false (((do S; ch ','; S; let x ← selectorP n; let xs ← moreSelectors n; pure (x :: xs)) <|>> ret []) s)
 def selectorP : Nat → LP Selector
   | 0 => fail
   | n+1 =>
@@ -213,7 +227,7 @@ def logicalOr : Nat → LP Filter
     pure (match rest with | [] => a | _ => Filter.or (a :: rest))
 def moreOr : Nat → LP (List Filter)
   | 0 => ret []
-  | n+1 => fun s => dedup (((do S; lit "||".toList; S; let x ← logicalAnd n; let xs ← moreOr n; pure (x :: xs)) <|>> ret []) s)
+  | n+1 => fun s => prune followOr false (((do S; lit "||".toList; S; let x ← logicalAnd n; let xs ← moreOr n; pure (x :: xs)) <|>> ret []) s)
 def logicalAnd : Nat → LP Filter
   | 0 => fail
   | n+1 => do
@@ -222,7 +236,7 @@ def logicalAnd : Nat → LP Filter
     pure (match rest with | [] => Filter.atom a | _ => Filter.and (Filter.atom a :: rest.map Filter.atom))
 def moreAnd : Nat → LP (List FilterAtom)
   | 0 => ret []
-  | n+1 => fun s => dedup (((do S; lit "&&".toList; S; let x ← basicExpr n; let xs ← moreAnd n; pure (x :: xs)) <|>> ret []) s)
+  | n+1 => fun s => prune followAnd false (((do S; lit "&&".toList; S; let x ← basicExpr n; let xs ← moreAnd n; pure (x :: xs)) <|>> ret []) s)
 def basicExpr : Nat → LP FilterAtom
   | 0 => fail
   | n+1 => fun s => dedup ((
@@ -238,8 +252,8 @@ def comparableP : Nat → LP Comparable
   | 0 => fail
   | n+1 =>
     (map Comparable.lit literalP)
-    <|>> (do ch '@'; let ss ← sqSegs true 64; pure (Comparable.sq false ss))
-    <|>> (do ch '$'; let ss ← sqSegs true 64; pure (Comparable.sq true ss))
+    <|>> (do ch '@'; let ss ← sqSegs true n; pure (Comparable.sq false ss))
+    <|>> (do ch '$'; let ss ← sqSegs true n; pure (Comparable.sq true ss))
     <|>> (map Comparable.fn (functionExpr n))
 def functionExpr : Nat → LP TestFunction
   | 0 => fail
@@ -251,7 +265,7 @@ def functionExpr : Nat → LP TestFunction
     pure (classifyFn nm args)
 def moreArgs : Nat → LP (List FnArg)
   | 0 => ret []
-  | n+1 => fun s => dedup (((do S; ch ','; S; let x ← argP n; let xs ← moreArgs n; pure (x :: xs)) <|>> ret []) s)
+  | n+1 => fun s => prune [[')']] false (((do S; ch ','; S; let x ← argP n; let xs ← moreArgs n; pure (x :: xs)) <|>> ret []) s)
 def argP : Nat → LP FnArg
   | 0 => fail
   | n+1 => fun s => dedup ((
